@@ -30,6 +30,9 @@ def run(index, tier="quick", seed=0) -> Result:
                        "is_inside implementations")
 
     from ..parallel import report as _copy1
+    from ..frame3 import check as _frame3
+    for cn_ in ("Polygon", "ConvexPolygon", "ConvexSpheropolygon"):
+        _frame3(res, index, cn_, ("is_inside",))
     _copy1(res, index, lambda f: f['top'] == 'is_inside' and f['cls'] in ('Polygon', 'ConvexPolygon', 'Circle', 'Ellipse'))
     # IN-6
     fn = index.cls("Polygon").lookup("is_inside")
